@@ -5,6 +5,7 @@
 # usage: tools/determinism.sh <id> [runs]
 set -u
 cd "$(dirname "$0")/.."
+export VERIF_ROOT="$(pwd)" # (a snapshot run must not write into /verif/evidence)
 id=$1; runs=${2:-4}
 norm() { python3 - "$1" <<'PY'
 import json,sys
